@@ -71,6 +71,10 @@ def spec_fold(case, fmt):
     state = None
     states = []
     for i, (_, mode) in enumerate(case["seq"]):
+        if i in (case.get("reread") or {}) and state is not None:
+            # the source is what was read from the target, minus some keys: appending it changes nothing
+            states.append(copy.deepcopy(state))
+            continue
         dn = native.normalise(copy.deepcopy(source_dict(case, i)))
         if fmt == "foam":
             dn = c10.strip_us_spec(dn)
@@ -94,7 +98,14 @@ def oracle(case: dict):
         target = tmp / ("target" + EXT[fmt])
         for i, (d, mode) in enumerate(seq):
             try:
-                dictIO.DictWriter.write(source_dict(case, i), target, mode=mode)
+                if i in (case.get("reread") or {}) and target.exists():
+                    # read-modify-append: the SDict read from the target (bound to it) loses keys and is appended back
+                    src = dictIO.DictReader.read(target)
+                    for k in case["reread"][i]:
+                        src.pop(k, None)
+                    dictIO.DictWriter.write(src, target, mode="a")
+                else:
+                    dictIO.DictWriter.write(source_dict(case, i), target, mode=mode)
                 got = gen.plain(dict(dictIO.DictReader.read(target)))
             except Exception as e:  # noqa: BLE001
                 return ("raises", f"write {i} (mode {mode!r}) / read raised {type(e).__name__}: {e}")
@@ -112,10 +123,11 @@ def shrink(case):
     al = case.get("alias") or {}
     for i in range(len(seq)):
         if not any(j >= i for j in al):
-            yield {"fmt": case["fmt"], "seq": seq[:i] + seq[i + 1:], "alias": al}
+            if not case.get("reread"):
+                yield {"fmt": case["fmt"], "seq": seq[:i] + seq[i + 1:], "alias": al}
     for i, (d, m) in enumerate(seq):
         for d2 in gen.shrink_tree(d):
-            yield {"fmt": case["fmt"], "seq": seq[:i] + [(d2, m)] + seq[i + 1:], "alias": al}
+            yield {"fmt": case["fmt"], "seq": seq[:i] + [(d2, m)] + seq[i + 1:], "alias": al, "reread": case.get("reread") or {}}
 
 
 KNOWN_PREDICATES = {}
@@ -128,7 +140,7 @@ def model_bytes(ctx, cases):
     dictIO = native.dictio()
     for c in cases:
         fmt = c["fmt"]
-        if fmt == "json":
+        if fmt == "json" or c.get("reread"):
             continue
         tmp = native.scratch_dir("c16m_")
         try:
@@ -189,7 +201,12 @@ def run(ctx):
                 k1 = rng.choice(subs)
                 others = [k for k in KEYPOOL if k != k1 and (fmt != "json" or isinstance(k, str))]
                 alias[j] = [(k1, k2) for k2 in rng.sample(others, rng.randrange(1, 3))]
-        cases.append({"fmt": fmt, "seq": seq, "alias": alias})
+        reread = {}
+        if len(seq) >= 2 and rng.random() < 0.3:
+            j = rng.randrange(1, len(seq))
+            seq[j] = (seq[j][0], "a")
+            reread[j] = rng.sample([k for k in KEYPOOL if fmt != "json" or isinstance(k, str)], rng.randrange(1, 4))
+        cases.append({"fmt": fmt, "seq": seq, "alias": alias, "reread": reread})
     for c in cases:
         r = oracle(c)
         if r:
